@@ -69,6 +69,9 @@ IDManager::GetHeartBeater()  //
   thread_local HeartBeater hb{};
   if (!hb.HasID()) {
     auto id = std::hash<std::thread::id>{}(std::this_thread::get_id()) % kMaxThreadNum;
+#ifdef CPP_UTILITY_VERIF
+    id = ::dbgroup::verif::ThreadHash(id) % kMaxThreadNum;
+#endif
     do {
       if (++id >= kMaxThreadNum) {
         id = 0;
@@ -87,6 +90,7 @@ IDManager::HeartBeater::~HeartBeater()
 {
   const auto id = *id_;
   id_.reset();  // expire the heartbeat before the ID can be reused
+  CPP_UTILITY_VERIF_POINT("id.exit.mid", &_id_vec[id])
   _id_vec[id].store(false, kRelease);
 }
 
